@@ -244,8 +244,30 @@ def check_lookup(ctx, reg, rc, tags, rng, tiling):
     return nt
 
 
-def _catalog(rng, kind, zoom):
+def _catalog(rng, kind, zoom, threshold=1):
     n = int(rng.integers(1, 400))
+    if kind == "hairline":
+        # a tile holding exactly `threshold` events (on its west edge and inside) whose west neighbour holds threshold+1 events, some of them on
+        # the last double west of the shared meridian (and ~1e-14 deg west of it); plus more than `threshold` events at longitudes 180 / 190,
+        # which lie in no cell. Counts sit at the threshold margin: moving one hairline event across the meridian, or counting the events
+        # beyond the antimeridian anywhere, changes which tiles must be split.
+        import mercantile
+        z0 = int(rng.integers(1, min(zoom, 7) + 1))
+        x = int(rng.integers(1, 2 ** z0))
+        y = int(rng.integers(0, 2 ** z0))
+        east, west = mercantile.bounds(mercantile.Tile(x, y, z0)), mercantile.bounds(mercantile.Tile(x - 1, y, z0))
+        b = float(east.west)
+        mid = 0.5 * (east.south + east.north)
+        lon = [b] * (threshold // 2) + [b + 0.25 * (east.east - b)] * (threshold - threshold // 2)
+        m = int(rng.integers(1, 4))
+        hair = [float(numpy.nextafter(b, -numpy.inf)), b - 1e-14 if b - 1e-14 < b else float(numpy.nextafter(b, -numpy.inf))]
+        lon += [hair[i % 2] for i in range(m)]
+        lon += [float(west.west) + 0.5 * (b - float(west.west))] * max(0, threshold + 1 - m)
+        lat = [mid] * len(lon)
+        k = threshold + 2
+        lon += [180.0, 190.0] * k
+        lat += [float(rng.uniform(-60, 60))] * (2 * k)
+        return numpy.array(lon, dtype=float), numpy.array(lat, dtype=float)
     if kind == "cluster":
         c = rng.uniform([-170, -70], [170, 70], (int(rng.integers(1, 5)), 2))
         idx = rng.integers(0, len(c), n)
@@ -307,7 +329,7 @@ def ex_single(ctx, zoom, seed=0):
 def ex_catalog(ctx, kind, threshold, zoom, seed):
     from csep.core.regions import QuadtreeGrid2D
     rng = numpy.random.default_rng([seed, 17])
-    lon, lat = _catalog(rng, kind, zoom)
+    lon, lat = _catalog(rng, kind, zoom, threshold)
     kw = {}
     mvals = numpy.full(len(lon), 5.0)
     if seed % 3 == 0:
@@ -413,6 +435,8 @@ def run(ctx):
             kind = "polar"
         elif j % 10 == 5:
             thr, zoom = 0, min(zoom, 6)          # threshold 0: every cell that holds an event is refined down to the maximum zoom
+        elif j % 10 == 9:
+            kind, thr = "hairline", int(r.choice([0, 1, 2, 3, 10]))
         ex_catalog(ctx, kind, thr, zoom, seed=int(r.integers(0, 10 ** 9)))
         if j % 30 == 0:
             ctx.sample({"ctor": "from_catalog", "kind": kind, "threshold": thr, "max_zoom": zoom})
